@@ -5,8 +5,9 @@
    their re-combination in duplicate_checker.main, check_results' un-merge), with
    sympy_simplify / np.random.shuffle / simplify_inv_subs / check_results' verdicts as oracles. *)
 From Coq Require Import List Bool Arith NArith ZArith Lia Permutation Sorted.
-From ESRV Require Import Model.Uniq Model.DoSympy Proofs.UniqProofs Proofs.DoSympyProofs.
+From ESRV Require Import Common.Py Gen.GenUniq Model.Uniq Model.DoSympy Proofs.UniqProofs Proofs.UniqGenProofs Proofs.DoSympyProofs.
 Import ListNotations.
+Open Scope nat_scope.
 
 (* ---------------------------------------------------------------- utils.get_unique_indexes *)
 (* the OrderedDict holds the distinct values of L in order of first appearance, each with the index
@@ -62,6 +63,54 @@ Theorem C03_get_match_indexes_keyerror : forall (A : Type) (eqb : A -> A -> bool
   forall a b f, In f b -> ~ In f a -> get_match_indexes eqb a b = None.
 Proof. exact get_match_indexes_keyerror. Qed.
 Print Assumptions C03_get_match_indexes_keyerror.
+
+(* ---------------------------------------------------------------- the same, on the code REGENERATED from utils.py on every run *)
+(* Gen/GenUniq.v is produced by harness/translate/uniq.py from the current source of get_unique_indexes / get_match_indexes
+   (OrderedDict = insertion-ordered association list, for-range loops, dict/list comprehensions).  It computes exactly the hand
+   model (indices as Z), for every element type, equality and input ... *)
+Theorem C03_code_unique_indexes_is_model : forall (A : Type) (eqb : A -> A -> bool) (L : list A),
+  GenUniq.get_unique_indexes eqb L = Some (zd (gui_result eqb L), zd (gui_match eqb L)).
+Proof. exact (fun A eqb => @gen_get_unique_indexes A eqb). Qed.
+Print Assumptions C03_code_unique_indexes_is_model.
+
+Theorem C03_code_match_indexes_is_model : forall (A : Type) (eqb : A -> A -> bool),
+  (forall x y, eqb x y = eqb y x) ->
+  forall a b : list A,
+  GenUniq.get_match_indexes eqb a b = option_map (map Z.of_nat) (Uniq.get_match_indexes eqb a b).
+Proof. exact (fun A eqb => @gen_get_match_indexes A eqb). Qed.
+Print Assumptions C03_code_match_indexes_is_model.
+
+(* ... hence the code never raises in get_unique_indexes and returns the distinct values in order of first appearance with their
+   first indices, and each distinct value's position *)
+Theorem C03_code_unique_indexes : forall (A : Type) (eqb : A -> A -> bool),
+  (forall x y, eqb x y = true <-> x = y) ->
+  forall L : list A,
+  GenUniq.get_unique_indexes eqb L
+  = Some (map (fun k => (k, Z.of_nat (first_index eqb k L))) (dedup eqb L),
+          combine (dedup eqb L) (map Z.of_nat (seq 0 (length (dedup eqb L))))).
+Proof. exact (fun A eqb => @code_get_unique_indexes A eqb). Qed.
+Print Assumptions C03_code_unique_indexes.
+
+Theorem C03_code_match_indexes_total : forall (A : Type) (eqb : A -> A -> bool),
+  (forall x y, eqb x y = true <-> x = y) ->
+  forall a b : list A, (forall f, In f b -> In f a) ->
+  GenUniq.get_match_indexes eqb a b = Some (map (fun f => Z.of_nat (first_index eqb f a)) b).
+Proof. exact (fun A eqb => @code_get_match_indexes_total A eqb). Qed.
+Print Assumptions C03_code_match_indexes_total.
+
+Theorem C03_code_match_indexes_keyerror : forall (A : Type) (eqb : A -> A -> bool),
+  (forall x y, eqb x y = true <-> x = y) ->
+  forall (a b : list A) f, In f b -> ~ In f a -> GenUniq.get_match_indexes eqb a b = None.
+Proof. exact (fun A eqb => @code_get_match_indexes_keyerror A eqb). Qed.
+Print Assumptions C03_code_match_indexes_keyerror.
+
+Example C03_ex_code_unique :
+  GenUniq.get_unique_indexes Z.eqb [5; 7; 5; 9; 7]%Z = Some ([(5, 0); (7, 1); (9, 3)], [(5, 0); (7, 1); (9, 2)])%Z.
+Proof. vm_compute. reflexivity. Qed.
+Example C03_ex_code_match :
+  GenUniq.get_match_indexes Z.eqb [5; 7; 5; 9; 7]%Z [9; 5]%Z = Some [3; 0]%Z /\
+  GenUniq.get_match_indexes Z.eqb [5; 7]%Z [9]%Z = None.
+Proof. vm_compute. auto. Qed.
 
 (* ---------------------------------------------------------------- shuffle + inverse remap *)
 (* for ANY permutation left by np.random.shuffle: uniq'[match_idx[k]] = all_fun[k], uniq' duplicate-free *)
